@@ -126,6 +126,12 @@ impl<'de> SerdeDeserializer<'de> for &mut Deserializer<'de> {
                 _ => visitor.visit_str(atom.as_str()),
             },
             OwnedTerm::Integer(i) => visitor.visit_i64(*i),
+            // An integer outside the 32-bit encodings comes back from the wire as a big integer, and
+            // a u64 above i64::MAX is one already in memory: a 64-bit value is shown as such.
+            OwnedTerm::BigInt(_) => match integer_term_as::<i64>(self.term, "i64") {
+                Ok(i) => visitor.visit_i64(i),
+                Err(_) => visitor.visit_u64(integer_term_as(self.term, "u64")?),
+            },
             OwnedTerm::Float(f) => visitor.visit_f64(*f),
             OwnedTerm::Binary(b) => {
                 if let Ok(s) = str::from_utf8(b) {
